@@ -9,6 +9,7 @@ import (
 	"path/filepath"
 	"sort"
 	"strings"
+	"time"
 
 	"golang.org/x/tools/go/callgraph"
 	"golang.org/x/tools/go/callgraph/cha"
@@ -66,10 +67,11 @@ func loadProg(cfg LoadConfig) (*Prog, error) {
 	if cfg.Tags != "" {
 		tags += "," + cfg.Tags
 	}
+	t0 := time.Now()
 	fset := token.NewFileSet()
 	pc := &packages.Config{
 		Mode: packages.NeedName | packages.NeedFiles | packages.NeedCompiledGoFiles | packages.NeedImports |
-			packages.NeedTypes | packages.NeedTypesSizes | packages.NeedSyntax | packages.NeedTypesInfo | packages.NeedDeps | packages.NeedModule,
+			packages.NeedTypes | packages.NeedTypesSizes | packages.NeedSyntax | packages.NeedTypesInfo | packages.NeedModule,
 		Dir:        cfg.RepoDir,
 		Env:        env,
 		Fset:       fset,
@@ -80,6 +82,7 @@ func loadProg(cfg LoadConfig) (*Prog, error) {
 	if err != nil {
 		return nil, fmt.Errorf("load: %w", err)
 	}
+	tLoad := time.Since(t0)
 	if len(pkgs) == 0 {
 		return nil, fmt.Errorf("load: zero packages under %s", cfg.RepoDir)
 	}
@@ -137,10 +140,14 @@ func loadProg(cfg LoadConfig) (*Prog, error) {
 			p.Funcs = append(p.Funcs, fn)
 		}
 	}
+	tSSA := time.Since(t0)
 	sort.Slice(p.Funcs, func(i, j int) bool { return p.Funcs[i].String() < p.Funcs[j].String() })
 	if !cfg.NoCG {
 		p.CHA = cha.CallGraph(prog)
 		p.CG = vta.CallGraph(all, p.CHA)
+	}
+	if os.Getenv("WALCHECK_TIMING") != "" {
+		fmt.Fprintf(os.Stderr, "timing: load %.2fs ssa %.2fs cg %.2fs funcs=%d\n", tLoad.Seconds(), (tSSA - tLoad).Seconds(), (time.Since(t0) - tSSA).Seconds(), len(all))
 	}
 	return p, nil
 }
